@@ -151,9 +151,10 @@ def answer (ts : List String) : String :=
   | ["match.qtype", t, q] =>
     match t.toNat?, q.toNat? with
     | some t, some q =>
+      -- a code `QTYPE::try_from` refuses can still be asked for: `QTYPE::TYPE(TYPE::from(code))` is constructible
       match QTYPE.ofCode q with
       | .ok q => showBool (matchQType (TYPE.ofCode t) q)
-      | _ => "bad-op"
+      | _ => if q < 65536 then showBool (matchQType (TYPE.ofCode t) (.TYPE (TYPE.ofCode q))) else "bad-op"
     | _, _ => "bad-op"
   | ["match.qclass", c, q] =>
     match c.toNat?, q.toNat? with
